@@ -206,7 +206,7 @@ class DataGen(object):
     def block_strfn(self):
         r = self.r
         long_ok = self.storage != 32
-        s = r.choice(["", "A", "HELLO", "AB CD"] + [x for x in ("ABCDEFGHIJKLMNOPQRSTUVWXYZ0123456789+-", "0" * 33 + "12") if long_ok and len(x) + 3 <= self.storage])
+        s = r.choice(["", "A", "HELLO", "AB CD", "&H1F", "&HFF"] + [x for x in ("ABCDEFGHIJKLMNOPQRSTUVWXYZ0123456789+-", "0" * 33 + "12") if long_ok and len(x) + 3 <= self.storage])
         self.add(("let", ("var", "W$"), ("str", s), False))
         L = len(s)
         W = ("var", "W$")
